@@ -1,7 +1,8 @@
 #!/usr/bin/env python3
-"""usage: seed_keep.py <ID>  -- copies the seeds of /tmp/seed_out/<ID> that lib/seed_verify.sh confirmed into /verif/seeded/<ID>/m<k>"""
+"""usage: seed_keep.py <ID> [prefix]  -- copies the seeds of /tmp/seed_out/<ID> that lib/seed_verify.sh confirmed into /verif/seeded/<ID>/m<k>"""
 import json, os, re, shutil, subprocess, sys
 id_ = sys.argv[1]
+pre = sys.argv[2] if len(sys.argv) > 2 else ""  # e.g. "r2" for a second round: kept as seeded/<ID>/r2m<k>
 src = "/tmp/seed_out/%s" % id_
 log = open(os.path.join(src, "verify_all.log")).read()
 head = subprocess.run(["git", "-C", "/repo", "rev-parse", "--short", "HEAD"], stdout=subprocess.PIPE).stdout.decode().strip()
@@ -10,7 +11,7 @@ for m in re.finditer(r"^%s m(\d+) demo_without_rc=(\d+) demo_with_rc=(\d+) suite
     if r0 != 0 or r1 == 0 or nf != 0:
         print("%s m%s NOT confirmed: %s" % (id_, k, m.group(0)))
         continue
-    d = "/verif/seeded/%s/m%s" % (id_, k)
+    d = "/verif/seeded/%s/%sm%s" % (id_, pre, k)
     os.makedirs(d, exist_ok=True)
     for f in ("patch.diff", "demo.diff"):
         shutil.copy(os.path.join(src, "m" + k, f), d)
